@@ -584,7 +584,12 @@ def run_c14(script, rng, summary):
     after = observe(json.loads(json.dumps(script, default=list)), cfg, json.loads(json.dumps(hist, default=list)), interleave)
     fresh = fresh_observe(script, cfg)
     diffs = []
-    for k in ("results", "assertions", "verdict", "raised", "base_status", "valid"):
+    # "no schedule returned" while z3 answers `unknown` on the assertions (quantified buffer rules, the time budget) is
+    # not a verdict: only the accepted declarations and the assertion lists are compared then
+    gave_up = any(o.get("verdict") is False and o.get("base_status") == "unknown" for o in (after, fresh))
+    if gave_up:
+        count(summary, "run_c14_history_verdict_not_compared_z3_unknown")
+    for k in ("results", "assertions", "raised") + (() if gave_up else ("verdict", "base_status", "valid")):
         if after.get(k) != fresh.get(k):
             diffs.append(k)
     if after.get("objective") != fresh.get("objective") and definite(after) and definite(fresh):
